@@ -388,7 +388,10 @@ func (e *Engine) convert(st *State, th *Thread, from, to types.Type, v Value, si
 func (e *Engine) bytesOfString(st *State, th *Thread, s *term.Term, et types.Type, site string) Value {
 	if !s.IsConst() {
 		// symbolic string: keep an opaque link through an uninterpreted pair of functions
-		if sl, ok := e.strToBytes[s]; ok {
+		e.mu.Lock()
+		sl, ok := e.strToBytes[s]
+		e.mu.Unlock()
+		if ok {
 			// fresh copy of the same contents
 			src := st.obj(sl.Obj)
 			id := e.newObjID(st, th, site)
@@ -432,7 +435,9 @@ func (e *Engine) stringOfBytes(st *State, sl Slice) Value {
 	}
 	t := term.UF(fmt.Sprintf("str_of_bytes_%d", sl.Len), term.Str, args...)
 	e.needBytesAxiom(sl.Len)
+	e.mu.Lock()
 	e.strToBytes[t] = sl
+	e.mu.Unlock()
 	return t
 }
 
